@@ -42,6 +42,35 @@ fn main() {
                 println!("{}", eval_one(line));
             }
         }
+        Some("parsefile") => {
+            // one source per line -> "OK <Display of the parsed module>" | "ERR"
+            let text = std::fs::read_to_string(&args[2]).unwrap();
+            for line in text.lines() {
+                match AstModule::parse("replay.star", line.to_owned(), &Dialect::Extended) {
+                    Ok(m) => println!("OK {}", format!("{}", m.statement().node).trim().replace('\n', " ")),
+                    Err(_) => println!("ERR"),
+                }
+            }
+        }
+        Some("ticks") => {
+            // verif_replay ticks <src> [budget] -> "OK ticks=<n>" | "ERR <msg> ticks=<n>"
+            let src = args[2].clone();
+            let budget: Option<u64> = args.get(3).map(|s| s.parse().unwrap());
+            Module::with_temp_heap(|module| {
+                let ast = AstModule::parse("replay.star", src, &Dialect::Extended).unwrap();
+                let globals = Globals::extended_internal();
+                let mut eval = Evaluator::new(&module);
+                if let Some(b) = budget {
+                    eval.set_max_tick_count(b).unwrap();
+                }
+                match eval.eval_module(ast, &globals) {
+                    Ok(_) => println!("OK ticks={}", eval.get_total_tick_count()),
+                    Err(e) => println!("ERR {} ticks={}", first_line(&format!("{:#}", e.kind())), eval.get_total_tick_count()),
+                }
+                Ok::<(), anyhow::Error>(())
+            })
+            .unwrap();
+        }
         Some("callstack-empty") => {
             let r = std::panic::catch_unwind(|| {
                 Module::with_temp_heap(|module| {
